@@ -28,6 +28,8 @@ claimed = {
    text="Proof, for operator chains of any length, that every binary node is built with a left operand of rank >= and a right operand of rank > its operator's rank (one fixed table, left association), that nodes keep (accumulated, new) as (left, right), that a node is emitted parenthesised in order, and that the table literal is the published one. Operands (parseTerm results) are abstract: that application binds tighter and that no operand is lost or reordered is not decided."),
  "C05": dict(design="§4 C05", technique="contract-based deductive verification: order-free, result-determining postconditions on every consumer of a dictionary enumeration (eqsUnion, eqsItems, rsRegisterNewEI, scLookupRecFacCur, exaustiveCheck) proved against dict.Keys/Values/KVs contracts that leave the order unspecified (each entry exactly once), with call-site loop invariants for the inlined slice.Iter over effectful closures; plus a closed-world scan of Go's nondeterminism sources and of the enumeration call sites; one known finding (F8) carved out by a precondition and re-run against the real binary on every check",
    text="Proof that the result of each enumeration consumer does not depend on the enumeration order (the postcondition holds for every order Go may choose and determines the observable result), and a scan showing there is no other source of nondeterminism. Known finding F8 (two records with equal field names) is excluded by an explicit carve-out precondition and reported as KNOWN-FINDING while it reproduces."),
+ "C06": dict(design="§4 C06", technique="contract-based deductive verification (partial): column invariant of the tokenizer (newTkz / tkzNext) against a line_start specification function over byte-array strings, exact comparison postconditions on the offside primitives (insideOffside, isEndOfBlock, psPushOffside, psPopOffside, psCurOffside, psCurCol), scanner extent/kind contracts, plus a closed-world scan of the readers of the column and of the offside stack; one known finding (F9) carved out and re-run on the real binary",
+   text="Partial. Proved for all byte strings: the column the offside rule compares is the token's byte offset in its physical line (outside the carve-out of F9), and every offside decision is a comparison of columns (so any strictly monotone re-indentation preserves every decision; a line indented less than its block ends it). NOT decided: the grammar-level layout clauses (one-line vs multi-line if, right-hand side on the next line, pipeline broken before |>), which are placements of psSkipEOL across the parser."),
 }
 na = {
  "C01": "whole-compiler semantic preservation needs a formal semantics of Folang and of Go plus a simulation proof through tokenizer, parser, inference and emitter; no function-level contract expresses it (DESIGN §5). Its run-time ingredients are decided under C10, C12-C14.",
